@@ -24,18 +24,18 @@ type Access struct {
 // memory.Memory and the wdc.Mem interface, records out-of-range addresses and optionally logs.
 type Mem struct {
 	Seed   uint32
-	W      map[uint32]byte
+	Over   map[uint32]byte
 	Log    []Access
 	DoLog  bool
 	OOR    int    // accesses with address >= 1<<24
 	OORAdr uint32 // first such address
 }
 
-func NewMem(seed uint32) *Mem { return &Mem{Seed: seed, W: map[uint32]byte{}} }
+func NewMem(seed uint32) *Mem { return &Mem{Seed: seed, Over: map[uint32]byte{}} }
 
 func (m *Mem) Reset(seed uint32) {
 	m.Seed = seed
-	m.W = map[uint32]byte{}
+	m.Over = map[uint32]byte{}
 	m.Log = m.Log[:0]
 	m.OOR = 0
 	m.OORAdr = 0
@@ -52,14 +52,14 @@ func (m *Mem) note(a uint32) {
 
 // Peek reads without logging.
 func (m *Mem) Peek(a uint32) byte {
-	if v, ok := m.W[a]; ok {
+	if v, ok := m.Over[a]; ok {
 		return v
 	}
 	return Mix(m.Seed, a)
 }
 
 // Poke writes without logging (generator overlay).
-func (m *Mem) Poke(a uint32, v byte) { m.W[a] = v }
+func (m *Mem) Poke(a uint32, v byte) { m.Over[a] = v }
 
 func (m *Mem) Read(a uint32) byte {
 	m.note(a)
@@ -72,14 +72,14 @@ func (m *Mem) Read(a uint32) byte {
 
 func (m *Mem) Write(a uint32, v byte) {
 	m.note(a)
-	m.W[a] = v
+	m.Over[a] = v
 	if m.DoLog {
 		m.Log = append(m.Log, Access{a, v, true})
 	}
 }
 
-func (m *Mem) R(a uint32) byte    { return m.Read(a) }
-func (m *Mem) Wr(a uint32, v byte) { m.Write(a, v) }
+func (m *Mem) R(a uint32) byte    { return m.Read(a & 0xffffff) }
+func (m *Mem) W(a uint32, v byte) { m.Write(a&0xffffff, v) }
 
 func (m *Mem) Shutdown()          {}
 func (m *Mem) Size() uint32       { return 1 << 24 }
@@ -88,9 +88,9 @@ func (m *Mem) Dump(uint32) []byte { return nil }
 
 // Clone copies contents (not the log).
 func (m *Mem) Clone() *Mem {
-	c := &Mem{Seed: m.Seed, W: make(map[uint32]byte, len(m.W)), DoLog: m.DoLog}
-	for k, v := range m.W {
-		c.W[k] = v
+	c := &Mem{Seed: m.Seed, Over: make(map[uint32]byte, len(m.Over)), DoLog: m.DoLog}
+	for k, v := range m.Over {
+		c.Over[k] = v
 	}
 	return c
 }
@@ -108,10 +108,10 @@ func DiffMem(a, b *Mem, max int) []uint32 {
 			d = append(d, k)
 		}
 	}
-	for k := range a.W {
+	for k := range a.Over {
 		chk(k)
 	}
-	for k := range b.W {
+	for k := range b.Over {
 		chk(k)
 	}
 	sort.Slice(d, func(i, j int) bool { return d[i] < d[j] })
